@@ -6,7 +6,9 @@
      empty_at_ext has_ext colour_at_ext clear_path_ext attacks_from_ext attacked_ext
      king_attacked_ext castle_ok_ext is_castle_move_ext pseudo_legal_ext apply_ext (pos_eq of the
      results) legal_ext legal_moves_ext count_pieces_ext legal_pos_ext perft_ext
-     checkmate_ext stalemate_ext fold_apply_ext *)
+     checkmate_ext stalemate_ext fold_apply_ext
+   and the same statements with suffix _nc for the coarser relation pos_eq_nc (everything but the two
+   move counters: none of these functions reads p_half / p_full; apply_ext_nc gives pos_eq_nc). *)
 From WV Require Import Types Bits Board Rules Abs Wf Encode.
 From Coq Require Import Lia RelationClasses.
 Open Scope N_scope.
@@ -63,74 +65,97 @@ Proof.
   split; [exact pos_eq_refl | exact pos_eq_sym | exact pos_eq_trans].
 Qed.
 
-(* ---------- the Rules functions respect pos_eq ---------- *)
+(* ---------- the Rules functions respect pos_eq_nc (and do not read the counters) ---------- *)
+
+(* equality of everything except the two move counters *)
+Definition pos_eq_nc (p q : pos) : Prop :=
+  (forall s, p_at p s = p_at q s) /\ p_turn p = p_turn q /\
+  (forall c k, p_right p c k = p_right q c k) /\ p_ep p = p_ep q.
+
+Lemma pos_eq_nc_of : forall p q, pos_eq p q -> pos_eq_nc p q.
+Proof. intros p q (Ha & Ht & Hr & He & _). unfold pos_eq_nc. auto. Qed.
+
+Lemma pos_eq_nc_refl : forall p, pos_eq_nc p p.
+Proof. intros p. apply pos_eq_nc_of, pos_eq_refl. Qed.
+
+Lemma pos_eq_nc_sym : forall p q, pos_eq_nc p q -> pos_eq_nc q p.
+Proof.
+  intros p q (Ha & Ht & Hr & He). unfold pos_eq_nc. repeat split; intros; symmetry; auto.
+Qed.
+
+Lemma pos_eq_nc_trans : forall p q r, pos_eq_nc p q -> pos_eq_nc q r -> pos_eq_nc p r.
+Proof.
+  intros p q r (Ha & Ht & Hr & He) (Ha' & Ht' & Hr' & He'). unfold pos_eq_nc.
+  repeat split; intros; etransitivity; eauto.
+Qed.
+
 
 Section Ext.
 Variables p q : pos.
-Hypothesis Hpq : pos_eq p q.
+Hypothesis Hpq : pos_eq_nc p q.
 
 
-Lemma empty_at_ext : forall s, empty_at p s = empty_at q s.
-Proof. pose proof Hpq as (Hat & Hturn & Hright & Hep & Hhalf & Hfull). intros s. unfold empty_at. rewrite Hat. reflexivity. Qed.
+Lemma empty_at_ext_nc : forall s, empty_at p s = empty_at q s.
+Proof. pose proof Hpq as (Hat & Hturn & Hright & Hep). intros s. unfold empty_at. rewrite Hat. reflexivity. Qed.
 
-Lemma has_ext : forall s c k, has p s c k = has q s c k.
-Proof. pose proof Hpq as (Hat & Hturn & Hright & Hep & Hhalf & Hfull). intros s c k. unfold has. rewrite Hat. reflexivity. Qed.
+Lemma has_ext_nc : forall s c k, has p s c k = has q s c k.
+Proof. pose proof Hpq as (Hat & Hturn & Hright & Hep). intros s c k. unfold has. rewrite Hat. reflexivity. Qed.
 
-Lemma colour_at_ext : forall s c, colour_at p s c = colour_at q s c.
-Proof. pose proof Hpq as (Hat & Hturn & Hright & Hep & Hhalf & Hfull). intros s c. unfold colour_at. rewrite Hat. reflexivity. Qed.
+Lemma colour_at_ext_nc : forall s c, colour_at p s c = colour_at q s c.
+Proof. pose proof Hpq as (Hat & Hturn & Hright & Hep). intros s c. unfold colour_at. rewrite Hat. reflexivity. Qed.
 
-Lemma clear_path_ext : forall fuel f r sf sr f' r',
+Lemma clear_path_ext_nc : forall fuel f r sf sr f' r',
   clear_path p fuel f r sf sr f' r' = clear_path q fuel f r sf sr f' r'.
 Proof.
-  pose proof Hpq as (Hat & Hturn & Hright & Hep & Hhalf & Hfull).
+  pose proof Hpq as (Hat & Hturn & Hright & Hep).
   induction fuel as [|k IH]; intros f r sf sr f' r'; cbn [clear_path]; [reflexivity|].
-  rewrite IH, empty_at_ext. reflexivity.
+  rewrite IH, empty_at_ext_nc. reflexivity.
 Qed.
 
-Lemma attacks_from_ext : forall c k f t, attacks_from p c k f t = attacks_from q c k f t.
-Proof. pose proof Hpq as (Hat & Hturn & Hright & Hep & Hhalf & Hfull). intros c k f t. unfold attacks_from. rewrite clear_path_ext. reflexivity. Qed.
+Lemma attacks_from_ext_nc : forall c k f t, attacks_from p c k f t = attacks_from q c k f t.
+Proof. pose proof Hpq as (Hat & Hturn & Hright & Hep). intros c k f t. unfold attacks_from. rewrite clear_path_ext_nc. reflexivity. Qed.
 
-Lemma attacked_ext : forall c t, attacked p c t = attacked q c t.
+Lemma attacked_ext_nc : forall c t, attacked p c t = attacked q c t.
 Proof.
-  pose proof Hpq as (Hat & Hturn & Hright & Hep & Hhalf & Hfull).
+  pose proof Hpq as (Hat & Hturn & Hright & Hep).
   intros c t. unfold attacked. apply existsb_pointwise. intros f. rewrite Hat.
-  destruct (p_at q f) as [[c' k]|]; [|reflexivity]. rewrite attacks_from_ext. reflexivity.
+  destruct (p_at q f) as [[c' k]|]; [|reflexivity]. rewrite attacks_from_ext_nc. reflexivity.
 Qed.
 
-Lemma king_attacked_ext : forall c, king_attacked p c = king_attacked q c.
+Lemma king_attacked_ext_nc : forall c, king_attacked p c = king_attacked q c.
 Proof.
-  pose proof Hpq as (Hat & Hturn & Hright & Hep & Hhalf & Hfull).
+  pose proof Hpq as (Hat & Hturn & Hright & Hep).
   intros c. unfold king_attacked. apply existsb_pointwise. intros s.
-  rewrite has_ext, attacked_ext. reflexivity.
+  rewrite has_ext_nc, attacked_ext_nc. reflexivity.
 Qed.
 
-Lemma castle_ok_ext : forall c side, castle_ok p c side = castle_ok q c side.
+Lemma castle_ok_ext_nc : forall c side, castle_ok p c side = castle_ok q c side.
 Proof.
-  pose proof Hpq as (Hat & Hturn & Hright & Hep & Hhalf & Hfull).
+  pose proof Hpq as (Hat & Hturn & Hright & Hep).
   intros c side. unfold castle_ok.
-  rewrite Hright, !has_ext, !attacked_ext, !empty_at_ext. reflexivity.
+  rewrite Hright, !has_ext_nc, !attacked_ext_nc, !empty_at_ext_nc. reflexivity.
 Qed.
 
-Lemma is_castle_move_ext : forall m, is_castle_move p m = is_castle_move q m.
-Proof. pose proof Hpq as (Hat & Hturn & Hright & Hep & Hhalf & Hfull). intros m. unfold is_castle_move. rewrite Hturn, has_ext. reflexivity. Qed.
+Lemma is_castle_move_ext_nc : forall m, is_castle_move p m = is_castle_move q m.
+Proof. pose proof Hpq as (Hat & Hturn & Hright & Hep). intros m. unfold is_castle_move. rewrite Hturn, has_ext_nc. reflexivity. Qed.
 
-Lemma pseudo_legal_ext : forall m, Rules.pseudo_legal p m = Rules.pseudo_legal q m.
+Lemma pseudo_legal_ext_nc : forall m, Rules.pseudo_legal p m = Rules.pseudo_legal q m.
 Proof.
-  pose proof Hpq as (Hat & Hturn & Hright & Hep & Hhalf & Hfull).
-  intros m. unfold Rules.pseudo_legal. rewrite <- Hturn, <- Hat, <- Hep, <- is_castle_move_ext.
+  pose proof Hpq as (Hat & Hturn & Hright & Hep).
+  intros m. unfold Rules.pseudo_legal. rewrite <- Hturn, <- Hat, <- Hep, <- is_castle_move_ext_nc.
   destruct (p_at p (mv_from m)) as [[c' k]|]; [|reflexivity].
-  rewrite <- !colour_at_ext, <- !empty_at_ext, <- !attacks_from_ext.
+  rewrite <- !colour_at_ext_nc, <- !empty_at_ext_nc, <- !attacks_from_ext_nc.
   destruct k; try reflexivity.
   destruct (mv_promo m); [reflexivity|].
   destruct (is_castle_move p m) as [side|]; [|reflexivity].
-  rewrite castle_ok_ext. reflexivity.
+  rewrite castle_ok_ext_nc. reflexivity.
 Qed.
 
-Lemma apply_ext : forall m, pos_eq (Rules.apply p m) (Rules.apply q m).
+Lemma apply_ext_nc : forall m, pos_eq_nc (Rules.apply p m) (Rules.apply q m).
 Proof.
-  pose proof Hpq as (Hat & Hturn & Hright & Hep & Hhalf & Hfull).
-  intros m. unfold pos_eq, Rules.apply. cbn [p_at p_turn p_right p_ep p_half p_full].
-  rewrite <- Hturn, <- !Hat, <- !empty_at_ext, <- Hhalf, <- Hfull.
+  pose proof Hpq as (Hat & Hturn & Hright & Hep).
+  intros m. unfold pos_eq_nc, Rules.apply. cbn [p_at p_turn p_right p_ep p_half p_full].
+  rewrite <- Hturn, <- !Hat, <- !empty_at_ext_nc.
   repeat split.
   - intros s. rewrite <- Hat. reflexivity.
   - intros c k. rewrite <- Hright. reflexivity.
@@ -138,66 +163,128 @@ Qed.
 
 End Ext.
 
-Lemma legal_ext : forall p q, pos_eq p q -> forall m, legal p m = legal q m.
+Lemma legal_ext_nc : forall p q, pos_eq_nc p q -> forall m, legal p m = legal q m.
 Proof.
-  intros p q H m. unfold legal. rewrite (pseudo_legal_ext p q H).
-  rewrite (king_attacked_ext _ _ (apply_ext p q H m)).
+  intros p q H m. unfold legal. rewrite (pseudo_legal_ext_nc p q H).
+  rewrite (king_attacked_ext_nc _ _ (apply_ext_nc p q H m)).
   rewrite (proj1 (proj2 H)). reflexivity.
 Qed.
 
 Section Ext2.
 Variables p q : pos.
-Hypothesis Hpq : pos_eq p q.
+Hypothesis Hpq : pos_eq_nc p q.
 
 
-Lemma legal_moves_ext : Rules.legal_moves p = Rules.legal_moves q.
+Lemma legal_moves_ext_nc : Rules.legal_moves p = Rules.legal_moves q.
 Proof.
-  pose proof Hpq as (Hat & Hturn & Hright & Hep & Hhalf & Hfull).
+  pose proof Hpq as (Hat & Hturn & Hright & Hep).
   unfold Rules.legal_moves. apply flat_map_pointwise. intros f. rewrite <- Hat, <- Hturn.
   destruct (p_at p f) as [[c k]|]; [|reflexivity].
   destruct (color_eqb c (p_turn p)); [|reflexivity].
   apply flat_map_pointwise. intros t. apply flat_map_pointwise. intros pr.
-  cbv zeta. rewrite (legal_ext p q Hpq). reflexivity.
+  cbv zeta. rewrite (legal_ext_nc p q Hpq). reflexivity.
 Qed.
 
-Lemma count_pieces_ext : forall c k, count_pieces p c k = count_pieces q c k.
+Lemma count_pieces_ext_nc : forall c k, count_pieces p c k = count_pieces q c k.
 Proof.
-  pose proof Hpq as (Hat & Hturn & Hright & Hep & Hhalf & Hfull).
-  intros c k. unfold count_pieces. f_equal. apply filter_pointwise. intros s. apply (has_ext p q Hpq).
+  pose proof Hpq as (Hat & Hturn & Hright & Hep).
+  intros c k. unfold count_pieces. f_equal. apply filter_pointwise. intros s. apply (has_ext_nc p q Hpq).
 Qed.
 
-Lemma legal_pos_ext : legal_pos p = legal_pos q.
+Lemma legal_pos_ext_nc : legal_pos p = legal_pos q.
 Proof.
-  pose proof Hpq as (Hat & Hturn & Hright & Hep & Hhalf & Hfull).
-  unfold legal_pos. rewrite !count_pieces_ext, (king_attacked_ext p q Hpq), Hturn, Hep.
+  pose proof Hpq as (Hat & Hturn & Hright & Hep).
+  unfold legal_pos. rewrite !count_pieces_ext_nc, (king_attacked_ext_nc p q Hpq), Hturn, Hep.
   f_equal; [f_equal; [f_equal|]|].
-  - apply forallb_pointwise. intros s. rewrite !(has_ext p q Hpq). reflexivity.
+  - apply forallb_pointwise. intros s. rewrite !(has_ext_nc p q Hpq). reflexivity.
   - apply forallb_pointwise. intros c. apply forallb_pointwise. intros side.
-    rewrite Hright, !(has_ext p q Hpq). reflexivity.
-  - destruct (p_ep q) as [t|]; [|reflexivity]. rewrite !(empty_at_ext p q Hpq), (has_ext p q Hpq). reflexivity.
+    rewrite Hright, !(has_ext_nc p q Hpq). reflexivity.
+  - destruct (p_ep q) as [t|]; [|reflexivity]. rewrite !(empty_at_ext_nc p q Hpq), (has_ext_nc p q Hpq). reflexivity.
 Qed.
 
-Lemma checkmate_ext : checkmate p = checkmate q.
-Proof. pose proof Hpq as (Hat & Hturn & Hright & Hep & Hhalf & Hfull). unfold checkmate. rewrite legal_moves_ext, (king_attacked_ext p q Hpq), Hturn. reflexivity. Qed.
+Lemma checkmate_ext_nc : checkmate p = checkmate q.
+Proof. pose proof Hpq as (Hat & Hturn & Hright & Hep). unfold checkmate. rewrite legal_moves_ext_nc, (king_attacked_ext_nc p q Hpq), Hturn. reflexivity. Qed.
 
-Lemma stalemate_ext : stalemate p = stalemate q.
-Proof. pose proof Hpq as (Hat & Hturn & Hright & Hep & Hhalf & Hfull). unfold stalemate. rewrite legal_moves_ext, (king_attacked_ext p q Hpq), Hturn. reflexivity. Qed.
+Lemma stalemate_ext_nc : stalemate p = stalemate q.
+Proof. pose proof Hpq as (Hat & Hturn & Hright & Hep). unfold stalemate. rewrite legal_moves_ext_nc, (king_attacked_ext_nc p q Hpq), Hturn. reflexivity. Qed.
 
 End Ext2.
 
-Lemma perft_ext : forall d p q, pos_eq p q -> Rules.perft d p = Rules.perft d q.
+Lemma perft_ext_nc : forall d p q, pos_eq_nc p q -> Rules.perft d p = Rules.perft d q.
 Proof.
   induction d as [|d IH]; intros p q H; [reflexivity|].
   destruct d as [|d'].
-  - cbn [Rules.perft]. rewrite (legal_moves_ext p q H). reflexivity.
+  - cbn [Rules.perft]. rewrite (legal_moves_ext_nc p q H). reflexivity.
   - change (Rules.perft (S (S d')) p) with
       (fold_left (fun acc m => (acc + Rules.perft (S d') (Rules.apply p m))%N) (Rules.legal_moves p) 0%N).
     change (Rules.perft (S (S d')) q) with
       (fold_left (fun acc m => (acc + Rules.perft (S d') (Rules.apply q m))%N) (Rules.legal_moves q) 0%N).
-    rewrite (legal_moves_ext p q H). generalize 0%N. generalize (Rules.legal_moves q).
+    rewrite (legal_moves_ext_nc p q H). generalize 0%N. generalize (Rules.legal_moves q).
     induction l as [|m tl IHl]; intros acc; cbn [fold_left]; [reflexivity|].
-    rewrite (IH (Rules.apply p m) (Rules.apply q m) (apply_ext p q H m)). apply IHl.
+    rewrite (IH (Rules.apply p m) (Rules.apply q m) (apply_ext_nc p q H m)). apply IHl.
 Qed.
+
+Lemma fold_apply_ext_nc : forall ms p q, pos_eq_nc p q ->
+  pos_eq_nc (fold_left Rules.apply ms p) (fold_left Rules.apply ms q).
+Proof.
+  induction ms as [|m tl IH]; intros p q H; cbn [fold_left]; [exact H|].
+  apply IH. apply apply_ext_nc. exact H.
+Qed.
+
+(* ---------- the same for pos_eq ---------- *)
+
+Section ExtEq.
+Variables p q : pos.
+Hypothesis Hpq : pos_eq p q.
+Let Hnc : pos_eq_nc p q := pos_eq_nc_of p q Hpq.
+
+Lemma empty_at_ext : forall s, empty_at p s = empty_at q s.
+Proof. exact (empty_at_ext_nc p q Hnc). Qed.
+Lemma has_ext : forall s c k, has p s c k = has q s c k.
+Proof. exact (has_ext_nc p q Hnc). Qed.
+Lemma colour_at_ext : forall s c, colour_at p s c = colour_at q s c.
+Proof. exact (colour_at_ext_nc p q Hnc). Qed.
+Lemma clear_path_ext : forall fuel f r sf sr f' r',
+  clear_path p fuel f r sf sr f' r' = clear_path q fuel f r sf sr f' r'.
+Proof. exact (clear_path_ext_nc p q Hnc). Qed.
+Lemma attacks_from_ext : forall c k f t, attacks_from p c k f t = attacks_from q c k f t.
+Proof. exact (attacks_from_ext_nc p q Hnc). Qed.
+Lemma attacked_ext : forall c t, attacked p c t = attacked q c t.
+Proof. exact (attacked_ext_nc p q Hnc). Qed.
+Lemma king_attacked_ext : forall c, king_attacked p c = king_attacked q c.
+Proof. exact (king_attacked_ext_nc p q Hnc). Qed.
+Lemma castle_ok_ext : forall c side, castle_ok p c side = castle_ok q c side.
+Proof. exact (castle_ok_ext_nc p q Hnc). Qed.
+Lemma is_castle_move_ext : forall m, is_castle_move p m = is_castle_move q m.
+Proof. exact (is_castle_move_ext_nc p q Hnc). Qed.
+Lemma pseudo_legal_ext : forall m, Rules.pseudo_legal p m = Rules.pseudo_legal q m.
+Proof. exact (pseudo_legal_ext_nc p q Hnc). Qed.
+Lemma legal_ext : forall m, legal p m = legal q m.
+Proof. exact (legal_ext_nc p q Hnc). Qed.
+Lemma legal_moves_ext : Rules.legal_moves p = Rules.legal_moves q.
+Proof. exact (legal_moves_ext_nc p q Hnc). Qed.
+Lemma count_pieces_ext : forall c k, count_pieces p c k = count_pieces q c k.
+Proof. exact (count_pieces_ext_nc p q Hnc). Qed.
+Lemma legal_pos_ext : legal_pos p = legal_pos q.
+Proof. exact (legal_pos_ext_nc p q Hnc). Qed.
+Lemma checkmate_ext : checkmate p = checkmate q.
+Proof. exact (checkmate_ext_nc p q Hnc). Qed.
+Lemma stalemate_ext : stalemate p = stalemate q.
+Proof. exact (stalemate_ext_nc p q Hnc). Qed.
+
+Lemma apply_ext : forall m, pos_eq (Rules.apply p m) (Rules.apply q m).
+Proof.
+  intros m. destruct (apply_ext_nc p q Hnc m) as (Ha & Ht & Hr & He).
+  pose proof Hpq as (Hat & Hturn & _ & _ & Hhalf & Hfull).
+  unfold pos_eq. repeat split; try assumption.
+  - unfold Rules.apply. cbn [p_half]. rewrite <- !Hat, <- !(empty_at_ext_nc p q Hnc), <- Hhalf. reflexivity.
+  - unfold Rules.apply. cbn [p_full]. rewrite <- Hturn, <- Hfull. reflexivity.
+Qed.
+
+End ExtEq.
+
+Lemma perft_ext : forall d p q, pos_eq p q -> Rules.perft d p = Rules.perft d q.
+Proof. intros d p q H. apply perft_ext_nc. apply pos_eq_nc_of. exact H. Qed.
 
 Lemma fold_apply_ext : forall ms p q, pos_eq p q ->
   pos_eq (fold_left Rules.apply ms p) (fold_left Rules.apply ms q).
